@@ -545,6 +545,8 @@ def apply_rw(text: str, rule, rx, repl, mn, log):
 
 INLINE = {'names': set(), 'sources': {}}   # set by build_unit(inline=...)
 NEED = {}                                    # helper stubs the always-on rewrites ask for (emitted before `} // verus!`)
+PULL = {}                                    # R13d: helper functions (with early exits / loops) to be pulled verbatim after the first function that calls them
+PULLED = set()
 
 
 def _split_top(s: str):
@@ -589,7 +591,11 @@ def _helper_def(name):
             bc = match_brace(m, bo)
             bodym = m[bo + 1:bc]
             if re.search(r'\breturn\b|\?|\.await\b|\bloop\b|\bwhile\b|\bfor\b', bodym):
-                continue
+                # not eligible for inlining (early exit / loop): R13d pulls it into the unit as its own item instead
+                if re.search(r'\.await\b', bodym):
+                    continue
+                fs = m.rfind('\n', 0, mo.start()) + 1
+                return dict(rel=rel, line=line_of(src, mo.start()), params=params, body=None, text=src[fs:bc + 1])
             # body with comments removed (masked text blanks comments AND literals, so rebuild: keep source chars except comment spans)
             body = src[bo + 1:bc]
             body = re.sub(r'//[^\n]*', '', body)
@@ -612,6 +618,9 @@ def inline_helpers(text: str, log):
                 d = _helper_def(name)
                 if d is None:
                     break
+            if d['body'] is None:
+                PULL[name] = d
+                break
             po = mo.end() - 1
             pc = match_brace(mm, po)
             args = _split_top(text[po + 1:pc])
@@ -763,6 +772,7 @@ def build_unit(tmpl_path: str, repo: str, inline=None, pull_consts=None):
     """returns dict(text, map, meta)"""
     INLINE['names'] = set(inline or [])
     INLINE['sources'] = {}
+    PULL.clear(); PULLED.clear()
     NEED.clear()
     pull_consts = list(pull_consts or [])
     tl = open(tmpl_path).read().split('\n')
@@ -789,6 +799,18 @@ def build_unit(tmpl_path: str, repo: str, inline=None, pull_consts=None):
         ln = tl[i]
         st = ln.strip()
         if not st.startswith('//@@'):
+            if st.startswith('} // verus!'):
+                # R13d: helper functions a refactor introduced that are not eligible for inlining (early exit / loop): pulled verbatim, at the unit's top level
+                for hname, hd in sorted(PULL.items()):
+                    if hname in PULLED:
+                        continue
+                    PULLED.add(hname)
+                    hlog = []
+                    htext = nest_let_chains(strip_attrs(hd['text'], hlog), hlog, hname)
+                    htext = re.sub(r'^(\s*)(pub(\([^)]*\))?\s+)?fn\b', r'\1pub fn', htext, count=1)
+                    g.emit(f"// ==== SOURCE {hd['rel']}:{hd['line']} fn {hname} (R13d: a helper the unit did not know, with an early exit or a loop — pulled verbatim, no contract of its own: verified as it stands)", 'tmpl', tmpl_path, i + 1, fn=hname)
+                    g.emit(htext, 'src', hd['rel'], hd['line'], fn=hname)
+                    meta['rewrites'].append(dict(fn=hname, rule='R13', what=f"helper `{hname}` ({hd['rel']}:{hd['line']}) is not inlinable (early exit / loop): pulled into the unit as its own function", applied=1))
             if st.startswith('} // verus!') and NEED.get('slice_to_array'):
                 g.emit('/// std: copying a slice into an array of the same length (R10b; panics on a length mismatch)', 'tmpl', tmpl_path, i + 1)
                 g.emit('#[verifier::external_body]', 'tmpl', tmpl_path, i + 1)
